@@ -166,7 +166,44 @@ func sinksMain(args []string) {
 				o.emit(strings.TrimSpace(fmt.Sprintf("fsspecial 2 %d %s", cfg, strings.Join(toks, " "))), strings.TrimSpace(res))
 				st.hit("fsspecial:stdout")
 			}
-		case 6, 7: // ChannelSink
+		case 6: // ChannelSink: the context ends (or the channel is drained) WHILE Process is blocked
+			ch := make(chan *eventlogger.Event) // unbuffered, no receiver yet
+			cs, _ := channel.NewChannelSink(ch, 400*time.Millisecond)
+			c2, cancel := context.WithCancel(ctx)
+			e := &eventlogger.Event{Type: "x"}
+			mode := p.intn(2)
+			go func() {
+				time.Sleep(4 * time.Millisecond)
+				if mode == 0 {
+					cancel()
+				} else {
+					<-ch
+				}
+			}()
+			t0 := time.Now()
+			_, err := cs.Process(c2, e)
+			dt := time.Since(t0)
+			cancel()
+			obs := "sent"
+			if err != nil {
+				if errors.Is(err, context.Canceled) {
+					obs = "ctx"
+				} else {
+					obs = "timeout"
+				}
+			}
+			if mode == 0 && obs != "ctx" {
+				oracle("C13 ChannelSink: the context was cancelled 4ms into a blocked Process (timeout 400ms) but it returned %q after %v: never blocking longer than the shorter of the two", obs, dt)
+			}
+			if mode == 1 && obs != "sent" {
+				oracle("C13 ChannelSink: the channel was drained 4ms into a blocked Process but it returned %q after %v", obs, dt)
+			}
+			if dt > 300*time.Millisecond {
+				oracle("C13 ChannelSink blocked %v although an arm became ready after 4ms", dt)
+			}
+			o.emit(fmt.Sprintf("chan %s %s false %s", bstr(mode == 1), bstr(mode == 0), obs), "ok")
+			st.hit("chan-during-wait:" + obs)
+		case 7: // ChannelSink
 			cr, cd := p.chance(1, 2), p.chance(1, 2)
 			ch := make(chan *eventlogger.Event, 1)
 			if !cr {
